@@ -294,6 +294,14 @@ func init() {
 					// a failure that lands inside an open skip-content / dropped element
 					in = []byte(bmx.Pick(c.r, []string{"a<object>b<b>c", "x<title>unclosed", "<a>1<a>2<object>3<iframe>4", "t<frameset><b>u</b>"}))
 				}
+				if k == 0 && round%4 == 1 {
+					// a failing write that is the last thing the call does: input that ends in stripped tags,
+					// comments or skipped content, under a policy that writes a space for a stripped tag
+					ops = append(ops, &bmx.Op{Kind: "SP", Flag: true})
+					pid, pol = c.policy(ops)
+					in = []byte(bmx.Pick(c.r, []string{"<p>hello</p><unknown>", "text<custom-tag/>", "<b>x</b><center></center><!-- c -->",
+						"t<nosuch></nosuch>", "t<object>skipped</object>", "a<nosuch><nosuch2></nosuch2></nosuch>", "<nosuch>"}))
+				}
 				if strings.TrimSpace(string(in)) == "" {
 					continue
 				}
@@ -304,7 +312,11 @@ func init() {
 				}
 				full.Write(cw.accepted)
 				total := cw.calls
-				for fk := 0; fk <= total && fk < 24; fk++ {
+				for fk := 0; fk <= total; fk++ {
+					if fk >= 24 && fk < total-4 {
+						// long outputs: the first writes and the last ones (the call's final writes included)
+						continue
+					}
 					for _, perm := range []bool{false, true} {
 						for _, sw := range []bool{false, true} {
 							fw := &faultWriter{failAt: fk, permanent: perm}
@@ -807,6 +819,7 @@ func init() {
 		case "C05":
 			directedC05(c)
 		case "C08", "C09":
+			directedSoup(c)
 			directedNesting(c)
 		case "C11":
 			directedC11(c)
@@ -818,6 +831,7 @@ func init() {
 		case "C07":
 			directedC07(c)
 		case "C14":
+			directedSoup(c)
 			directedC03(c)
 		case "C02":
 			directedC02(c)
